@@ -2,7 +2,6 @@ package fscache
 
 import (
 	"os"
-	"path"
 	"sync"
 
 	"github.com/goatcms/goatcore/filesystem"
@@ -26,10 +25,6 @@ type cacheHistory struct {
 	remove      map[string]bool
 	removeAllMU sync.RWMutex
 	removeAll   map[string]bool
-	mkdirAllMU  sync.RWMutex
-	mkdirAll    map[string]os.FileMode
-	writeMU     sync.RWMutex
-	write       map[string]bool
 }
 
 // newCache create new chache for remoteFS (use exists buffer filespace)
@@ -41,8 +36,6 @@ func newCache(bufferFS, remoteFS filesystem.Filespace) *Cache {
 		changes: cacheHistory{
 			remove:    map[string]bool{},
 			removeAll: map[string]bool{},
-			mkdirAll:  map[string]os.FileMode{},
-			write:     map[string]bool{},
 		},
 	}
 }
@@ -63,15 +56,14 @@ func (c *Cache) Buffer() filesystem.Filespace {
 
 // Commit send buffered changes to remote filesystem
 func (c *Cache) Commit() (err error) {
-	var (
-		src      string
-		filemode os.FileMode
-	)
+	var src string
+	// removed nodes first: whatever was re-created afterwards lives in the buffer
+	// and is written back below
 	c.changes.removeMU.RLock()
 	defer c.changes.removeMU.RUnlock()
 	for src = range c.changes.remove {
-		if c.remoteFS.IsFile(src) {
-			if err = c.remoteFS.Remove(src); err != nil {
+		if c.remoteFS.IsExist(src) {
+			if err = c.remoteFS.RemoveAll(src); err != nil {
 				return err
 			}
 		}
@@ -85,28 +77,8 @@ func (c *Cache) Commit() (err error) {
 			}
 		}
 	}
-	c.changes.mkdirAllMU.RLock()
-	defer c.changes.mkdirAllMU.RUnlock()
-	for src, filemode = range c.changes.mkdirAll {
-		if c.bufferFS.IsDir(src) {
-			if err = c.remoteFS.MkdirAll(src, filemode); err != nil {
-				return err
-			}
-		}
-	}
-	c.changes.writeMU.RLock()
-	defer c.changes.writeMU.RUnlock()
-	for src = range c.changes.write {
-		if err = c.remoteFS.MkdirAll(path.Dir(src), filesystem.DefaultUnixDirMode); err != nil {
-			return err
-		}
-		if c.bufferFS.IsFile(src) {
-			if err = fshelper.StreamCopy(c.bufferFS, c.remoteFS, src); err != nil {
-				return err
-			}
-		}
-	}
-	return nil
+	// the buffer holds exactly the directories and files created through the cache
+	return fshelper.Copy(c.bufferFS, c.remoteFS, nil)
 }
 
 // Copy duplicate a file or directory
@@ -125,7 +97,6 @@ func (c *Cache) Copy(src, dest string) error {
 	var srcFS filesystem.Filespace
 	srcFS, src = c.srcFS(src)
 	dest = varutil.CleanPath(dest)
-	c.changeWrite(dest, true)
 	return (fshelper.Copier{
 		SrcFS:    srcFS,
 		SrcPath:  src,
@@ -142,7 +113,6 @@ func (c *Cache) CopyDirectory(src, dest string) error {
 	if !srcFS.IsDir(src) {
 		return goaterr.Errorf("Source node must be a directory")
 	}
-	c.changeWrite(dest, true)
 	return c.Copy(src, dest)
 }
 
@@ -154,7 +124,6 @@ func (c *Cache) CopyFile(src, dest string) error {
 	if !srcFS.IsFile(src) {
 		return goaterr.Errorf("Source node must be a file")
 	}
-	c.changeWrite(dest, true)
 	return c.Copy(src, dest)
 }
 
@@ -204,14 +173,12 @@ func (c *Cache) IsDir(src string) bool {
 // MkdirAll create directory recursively
 func (c *Cache) MkdirAll(dest string, filemode os.FileMode) error {
 	dest = varutil.CleanPath(dest)
-	c.changeMkdirAll(dest, filemode)
 	return c.bufferFS.MkdirAll(dest, filemode)
 }
 
 // Writer return a file node writer
 func (c *Cache) Writer(dest string) (filesystem.Writer, error) {
 	dest = varutil.CleanPath(dest)
-	c.changeWrite(dest, true)
 	return c.bufferFS.Writer(dest)
 }
 
@@ -232,7 +199,6 @@ func (c *Cache) ReadFile(src string) ([]byte, error) {
 // WriteFile write file data
 func (c *Cache) WriteFile(dest string, data []byte, perm os.FileMode) error {
 	dest = varutil.CleanPath(dest)
-	c.changeWrite(dest, true)
 	return c.bufferFS.WriteFile(dest, data, perm)
 }
 
@@ -245,20 +211,24 @@ func (c *Cache) Filespace(subPath string) (filesystem.Filespace, error) {
 func (c *Cache) Remove(dest string) (err error) {
 	dest = varutil.CleanPath(dest)
 	if c.bufferFS.IsExist(dest) {
-		err = c.bufferFS.Remove(dest)
+		if err = c.bufferFS.Remove(dest); err != nil {
+			return err
+		}
 	}
 	c.changeRemove(dest, true)
-	return err
+	return nil
 }
 
 // RemoveAll delete node by path recursively
 func (c *Cache) RemoveAll(dest string) (err error) {
 	dest = varutil.CleanPath(dest)
 	if c.bufferFS.IsExist(dest) {
-		err = c.bufferFS.RemoveAll(dest)
+		if err = c.bufferFS.RemoveAll(dest); err != nil {
+			return err
+		}
 	}
 	c.changeRemoveAll(dest, true)
-	return err
+	return nil
 }
 
 // Lstat returns a FileInfo describing the named file.
@@ -266,12 +236,6 @@ func (c *Cache) Lstat(src string) (os.FileInfo, error) {
 	var srcFS filesystem.Filespace
 	srcFS, src = c.srcFS(src)
 	return srcFS.Lstat(src)
-}
-
-func (c *Cache) changeWrite(dest string, value bool) {
-	c.changes.writeMU.Lock()
-	defer c.changes.writeMU.Unlock()
-	c.changes.write[dest] = value
 }
 
 func (c *Cache) changeRemove(dest string, value bool) {
@@ -284,10 +248,4 @@ func (c *Cache) changeRemoveAll(dest string, value bool) {
 	c.changes.removeAllMU.Lock()
 	defer c.changes.removeAllMU.Unlock()
 	c.changes.removeAll[dest] = value
-}
-
-func (c *Cache) changeMkdirAll(dest string, value os.FileMode) {
-	c.changes.mkdirAllMU.Lock()
-	defer c.changes.mkdirAllMU.Unlock()
-	c.changes.mkdirAll[dest] = value
 }
